@@ -175,3 +175,19 @@ def shared_weighted_uncrossed_in_subblock(case, v=None):
             if f["kind"] == "basic" and any(w > 1 for _, w in f["levels"]) and n not in crossed:
                 return True
     return False
+
+
+# M10 -----------------------------------------------------------------------------------------------
+def crossed_derived_over_weighted_uncrossed(case, v=None):
+    """A crossed within-trial derived factor reads (directly) a weighted basic factor that is outside the
+    crossing (that factor is desugared into a hidden factor RandomGen's counting does not know)."""
+    sp = _spec(case)
+    F = sp["factors"]
+    for cr in S.tree_crossings(sp["block"]):
+        for n in cr:
+            f = F[n]
+            if f["kind"] == "derived" and not S.is_complex(sp, n):
+                for d in f["deps"]:
+                    if F[d]["kind"] == "basic" and d not in cr and any(w > 1 for _, w in F[d]["levels"]):
+                        return True
+    return False
